@@ -35,4 +35,12 @@ CHECKS = {
         note=COMMON_NOTE + " Division results are compared with the correctly rounded rational. Integer division by zero and mixed operand types are outside the must-domain (no-crash only).",
         technique="TLA+ operator semantics + TLC BFS case enumeration, replayed into operator API and Model.Run",
         design_ref="DESIGN.md section 6 (C03)"),
+    "C07": dict(
+        text="Bounded-exhaustive: TLC enumerates (input shape, target / axis / axes list) for Reshape, Flatten, Squeeze, Unsqueeze and Shape "
+             "within the bounds of the evidence rule, valid and invalid requests alike, computes the ONNX result shape (or 'error') from "
+             "spec/OpShape.tla; the real operator must return exactly the input's elements in row-major order with that shape, or an error "
+             "for invalid requests - never a panic; three execution modes; all 14 element types on a shape subset.",
+        note=COMMON_NOTE,
+        technique="TLA+ operator semantics + TLC BFS case enumeration, replayed into operator API and Model.Run",
+        design_ref="DESIGN.md section 6 (C07)"),
 }
